@@ -21,6 +21,7 @@ type e13desc struct {
 	Trigger string `json:"trigger"` // close | closeN | cancel | list-error
 	At      string `json:"fire_at"` // step:<s> | point:<n>
 	State   string `json:"hard_state"`
+	UserCtx string `json:"user_ctx,omitempty"` // "opaque": a hand-written context.Context the standard library cannot see through
 }
 
 var e13Triggers = []string{"close", "close3", "cancel", "list-error", "close5"}
@@ -116,7 +117,15 @@ func e13RunCtx(r *Res, d e13desc, fireStep, firePoint, fireCtx int) (int, int) {
 	if fireCtx > 0 {
 		tctx.CancelAtCall(fireCtx)
 	}
-	g, err := newCtlRigCtx(core, srv, P, nil, tctx, tctx.Cancel)
+	var octx *kit.OpaqueCtx
+	var g *ctlRig
+	var err error
+	if d.UserCtx == "opaque" {
+		octx = kit.NewOpaqueCtx()
+		g, err = newCtlRigCtx(core, srv, P, nil, octx, octx.Cancel)
+	} else {
+		g, err = newCtlRigCtx(core, srv, P, nil, tctx, tctx.Cancel)
+	}
 	if err != nil {
 		r.Inc(err.Error())
 		return 0, 0
@@ -367,6 +376,20 @@ func e13RunCtx(r *Res, d e13desc, fireStep, firePoint, fireCtx int) (int, int) {
 			}
 		}
 	}
+	if octx != nil && d.Trigger != "cancel" {
+		// The user's context is still live (and stays so): the root is done, so
+		// everything started on the library's behalf has to be gone all the same -
+		// including the watcher goroutine that package context runs for every
+		// context the library derived from a parent it cannot see through.
+		g.barrier()
+		gs := append(kit.Census(), kit.CtxWatchers()...)
+		r.Add("opaque-ctx-censuses", 1)
+		if len(gs) > 0 {
+			r.V("C12", "goroutine-leak", "trigger %s at %s in state %s, user context of a hand-written type that is still live: %d goroutine(s) started on the library's behalf remain after the root is done: %v\n%s", d.Trigger, where, d.State, len(gs), kit.CensusKeys(gs), kit.CensusText(gs, 6))
+			g.cancel()
+			return 0, 0
+		}
+	}
 	g.cancel()
 	g.barrier()
 	if gs := kit.Census(); len(gs) > 0 {
@@ -480,18 +503,25 @@ func e13RunCtx(r *Res, d e13desc, fireStep, firePoint, fireCtx int) (int, int) {
 }
 
 func e13Case(seed uint64, scen int, trig, state string, fireStep, k, K int) Case {
+	return e13CaseCtx(seed, scen, trig, state, fireStep, k, K, "")
+}
+
+func e13CaseCtx(seed uint64, scen int, trig, state string, fireStep, k, K int, userCtx string) Case {
 	at := fmt.Sprintf("step:%d", fireStep)
 	if K > 0 {
 		at = fmt.Sprintf("point:%d/%d of the run's logger points", k, K)
 	}
-	d := e13desc{seed, scen, trig, at, state}
+	d := e13desc{seed, scen, trig, at, state, userCtx}
 	id := fmt.Sprintf("E13/%d/s%d/%s/%s/%s", seed, scen, state, trig, at)
+	if userCtx != "" {
+		id += "/ctx-" + userCtx
+	}
 	return Case{ID: id, Desc: d, Bubble: true, Run: func(r *Res) {
 		point := 0
 		if K > 0 {
 			// dry run in the same bubble: count the logger points N of this scenario,
 			// then fire from inside point 1 + k*N/K
-			n := e13Run(r, e13desc{seed, scen, "close", "dry-run", state}, -1, 0)
+			n := e13Run(r, e13desc{seed, scen, "close", "dry-run", state, userCtx}, -1, 0)
 			if n <= 0 || r.Failed() {
 				return
 			}
@@ -509,10 +539,10 @@ func e13Case(seed uint64, scen int, trig, state string, fireStep, k, K int) Case
 // consultations (Done()/Err()) the library makes of it in this scenario.
 func e13CtxCase(seed uint64, scen int, state string, k, K int) Case {
 	at := fmt.Sprintf("ctxcall:%d/%d of the run's context consultations", k, K)
-	d := e13desc{seed, scen, "cancel", at, state}
+	d := e13desc{seed, scen, "cancel", at, state, ""}
 	id := fmt.Sprintf("E13/%d/s%d/%s/cancel/%s", seed, scen, state, at)
 	return Case{ID: id, Desc: d, Bubble: true, Run: func(r *Res) {
-		_, n := e13RunCtx(r, e13desc{seed, scen, "close", "dry-run", state}, -1, 0, 0)
+		_, n := e13RunCtx(r, e13desc{seed, scen, "close", "dry-run", state, ""}, -1, 0, 0)
 		if n <= 0 || r.Failed() {
 			return
 		}
@@ -658,6 +688,22 @@ func init() {
 					}
 					for k := 0; k < K; k++ {
 						cases = append(cases, e13Case(seed, sc, tr, st, -1, k, K))
+					}
+				}
+				// the user's context is of a hand-written type and is never cancelled
+				for ti, tr := range []string{"close", "close3", "list-error"} {
+					if st == "not-ready" && tr == "list-error" {
+						continue
+					}
+					for s := 0; s < e13Steps; s++ {
+						if tier == "quick" && (s+si+ti+sc)%4 != 0 {
+							continue
+						}
+						cases = append(cases, e13CaseCtx(seed, sc, tr, st, s, 0, 0, "opaque"))
+					}
+					KO := tierPick(tier, 3, 24)
+					for k := 0; k < KO; k++ {
+						cases = append(cases, e13CaseCtx(seed, sc, tr, st, -1, k, KO, "opaque"))
 					}
 				}
 				KC := tierPick(tier, 12, 48)
